@@ -1,4 +1,6 @@
 import Orca.Lemmas.SemSim
+import Orca.Gen.ResolverOutline
+import Orca.Model.ResolverOutlineSpec
 import Orca.Lemmas.SemBranch
 import Orca.Lemmas.StackFull
 /-!
@@ -122,3 +124,13 @@ example :
   decide
 
 end Orca.Lower
+
+/-- **The tie to the source (regenerated on every run).** The skeletons of `resolve_function_entry`,
+    `resolve_function_exit_with_block_wrapper` and `resolve_function_exit` — which operators count as leaving the function, where the
+    exit code goes, the early `return`, the `end` of the wrapper at the last instruction — are what `rpre` / `entryToks` were
+    transcribed from. -/
+theorem c17_function_level_code_reviewed :
+    Orca.Gen.Outline.resolve_function_entry = Orca.Lower.Outline.resolve_function_entry
+    ∧ Orca.Gen.Outline.resolve_function_exit_with_block_wrapper = Orca.Lower.Outline.resolve_function_exit_with_block_wrapper
+    ∧ Orca.Gen.Outline.resolve_function_exit = Orca.Lower.Outline.resolve_function_exit :=
+  ⟨rfl, rfl, rfl⟩
